@@ -29,6 +29,10 @@ def in_file_variant(files, cli, kind):
     if kind == "select":
         xs = c2.pop("select", None)
         if not xs or any(x.startswith("-") for x in xs): return None
+        # open finding K20:cli-select-of-removed-name: an app that removes a name in-file ('-X') still gets X from
+        # --select X (removals are applied per module when it is loaded; the command line comes later)
+        removed = {e[1:].lstrip("?") for a in apps for fld in ("selects", "depends") for e in (a.get(fld) or []) if isinstance(e, str) and e.startswith("-")}
+        if removed & {x.lstrip("?") for x in xs}: return None
         for a in apps:
             a["selects"] = list(xs) + list(a.get("selects") or [])
     elif kind == "disable":
@@ -88,6 +92,17 @@ def comma_variant(cli):
         if c2.get(key) and len(c2[key]) > 1 and not any("," in x for x in c2[key]):
             extra += [flag, ",".join(c2.pop(key))]
     return (c2, extra) if extra else None
+
+def witness_select_of_removed(laze):
+    """--select X for an app that removes X in-file: the command line selects X, the in-file spelling does not"""
+    from .. import directed
+    f = directed.base([{"name": "x", "sources": ["x.c"]}], [{"name": "app", "sources": ["main.c"], "selects": ["-x"]}])
+    a = e2e.run_laze(laze, f, {"select": ["x"]}, info=False)
+    f2 = copy.deepcopy(f); f2["laze-project.yml"][0]["apps"][0]["selects"] = ["x", "-x"]
+    b = e2e.run_laze(laze, f2, {}, info=False)
+    return a["rc"] == 0 and b["rc"] == 0 and a["ninja"] != b["ninja"]
+
+KNOWN = {"K20:cli-select-of-removed-name": witness_select_of_removed}
 
 def run(rep, tier, seed, rng):
     core.proof_step(rep, "C20", clean=(tier == "thorough"))
@@ -151,6 +166,15 @@ def run(rep, tier, seed, rng):
         if r["rc"] != x["impl_raw"]["rc"] or r["ninja"] != x["impl_raw"]["ninja"] or r["info"] != x["impl_raw"]["info"]:
             rep.violation(("LAZE_* environment spelling" if mode == "env" else "comma-separated flag values") + " differ from the repeated flags",
                           dict(files=f, cli=c, variant=str(v[1] if mode == "comma" else v[1])), found_input=True)
+    # open known findings: do the witnesses still reproduce? (one that reproduces without being listed is a violation)
+    open_known = {k["key"] for k in core.load_known() if k.get("property") == "C20" and k.get("status") == "open"}
+    wit = {}
+    for key, fn in KNOWN.items():
+        try: wit[key] = bool(fn(laze))
+        except Exception as e: wit[key] = "error: %s" % e
+        if wit[key] is True and key not in open_known:
+            rep.violation("--select on the command line and its in-file spelling give different ninja files (%s)" % key, dict(witness=key), found_input=True)
+    rep.cov.update(known_finding_witnesses=wit)
     rep.cov.update(evaluations=2 * len(pairs) + len(jobs), distinct_nontrivial=len(distinct),
                    rule="random projects with a random --select / --disable / -D list (1-3 entries, optional and repeated names, list and single assignments); the in-file "
                         "spelling is produced by editing the YAML (select: in front of every app's selects; disable: appended to every builder's disables; define: merged at "
